@@ -392,6 +392,11 @@ class VariableBoundVisitor(ModelVisitor):
     def visit_expr_array_subscript(self, s):
         # This only exists until we flatten out array references
         pass
+    
+    def visit_expr_indexed_dynref(self, e):
+        # The statements of a referenced dynamic constraint do not
+        # take part in bounds inference
+        pass
                 
     def visit_expr_fieldref(self, e):
         if self.phase == 0:
